@@ -255,7 +255,8 @@ func (l *vC08Lab) query(name string) {
 	l.w.takeLog()
 	before := l.counter.n.Load()
 	t0 := l.p.now()
-	rep := l.p.ask(name, dns.TypeA)
+	wire := l.r.Intn(2) == 0 // ingress shape: wire-born (raw UDP/TCP) or decoded message
+	rep := l.p.ask(name, dns.TypeA, wire)
 	t1 := l.p.now()
 	if !rep.ok {
 		l.inconcl = true
@@ -265,7 +266,7 @@ func (l *vC08Lab) query(name string) {
 		l.inconcl = true // loopback hiccup: the bracket is wider than the safety margin
 	}
 	miss := l.counter.n.Load() != before
-	l.desc = append(l.desc, fmt.Sprintf("query %s at t=%v -> rcode=%d src=%d ttl=%d miss=%v", name, time.Duration(t0), rep.rcode, rep.src, rep.ttl, miss))
+	l.desc = append(l.desc, fmt.Sprintf("query %s (wire-born=%v) at t=%v -> rcode=%d src=%d ttl=%d miss=%v", name, wire, time.Duration(t0), rep.rcode, rep.src, rep.ttl, miss))
 	// ghost oracle on the reply itself
 	if rep.src >= 0 {
 		if until, ok := l.retired[rep.src]; ok {
